@@ -74,7 +74,7 @@ def run_lp(spec, opts, workdir, rng, inject=True, noise=True, second_side=None,
             pass
     path = write_file(workdir, text)
     if stale_text is not None:
-        os.utime(path, (int(st0.st_atime), int(st0.st_mtime)))
+        os.utime(path, ns=(st0.st_atime_ns, st0.st_mtime_ns))     # exactly the old time stamps (as cp -p would leave)
     if argv is None:
         argv = ['-f', path, '-na', str(spec['na'])] + sp.opts_to_argv(opts, rng)
     ex = {'spec': spec, 'opts': opts, 'argv': argv, 'text': text, 'exc': None,
